@@ -1,7 +1,7 @@
 """C12 - keys open only matching ciphertexts; hidden slots cannot be filled (partial claim: hidden-slot paths)."""
 from .. import cursor
 
-EXPL = ('Partial claim. Non-decryptability for mismatching patterns is a cryptographic statement and is NOT decided. '
+EXPL = ('(R-SCHEME) every path segment (entry -> loop head, one loop iteration, loop exit -> return) of the scheme routines is interpreted in the discrete-log domain - group elements are formal Z_r-linear combinations of base symbols with polynomial coefficients, pairings expand bilinearly, cursors and indices are symbolic - and its effect table is compared with the table the construction prescribes for the segment\'s category (attribute present / hidden / slot free in the parent / flags); with the exit conditions this is an inductive argument valid for every number of slots and every attribute list: which generator, which exponent, which randomness reaches which component is decided for all values at once. Partial claim. Non-decryptability for mismatching patterns is a cryptographic statement and is NOT decided. '
         'Decided: (R-HIDDEN) on every loop-body path of the four key-derivation loops on which the matched attribute is '
         'marked omitFromKeys, nothing is added to a0/product and no delegation component b[j] is emitted - a hidden slot '
         'contributes neither to the key nor a way to fill it later - while every visible matched attribute does enter the '
